@@ -36,6 +36,7 @@ type vCase struct {
 	Record  bool   `json:"record"`
 	Chunk   int    `json:"chunk"`
 	Seed    int64  `json:"seed"`
+	EOFWith bool   `json:"eof_with_data"` // the reader returns io.EOF together with the last chunk
 }
 
 type vEvent map[string]interface{}
@@ -87,9 +88,10 @@ func settle(w *recWriter, quiet, max time.Duration) {
 }
 
 type chunkedReader struct {
-	data []byte
-	rng  *rand.Rand
-	max  int
+	data    []byte
+	rng     *rand.Rand
+	max     int
+	eofWith bool
 }
 
 func (c *chunkedReader) Read(p []byte) (int, error) {
@@ -105,6 +107,9 @@ func (c *chunkedReader) Read(p []byte) (int, error) {
 	}
 	copy(p, c.data[:n])
 	c.data = c.data[n:]
+	if c.eofWith && len(c.data) == 0 {
+		return n, io.EOF
+	}
 	return n, nil
 }
 
@@ -128,8 +133,12 @@ var verifStart = time.Date(2023, 5, 10, 12, 0, 0, 0, time.UTC)
 func runHandle(in []byte, w io.Writer, cfg *jsonconfig.Config, c vCase) chan string {
 	done := make(chan string, 1)
 	var r io.Reader = bytes.NewReader(in)
-	if c.Chunk > 0 {
-		r = &chunkedReader{append([]byte{}, in...), rand.New(rand.NewSource(c.Seed)), c.Chunk}
+	if c.Chunk > 0 || c.EOFWith {
+		ch := c.Chunk
+		if ch <= 0 {
+			ch = 1 << 20
+		}
+		r = &chunkedReader{append([]byte{}, in...), rand.New(rand.NewSource(c.Seed)), ch, c.EOFWith}
 	}
 	go func() {
 		defer func() {
